@@ -38,6 +38,9 @@ def gen(tier, seed, index):
     forced = [G.FORCED[(index // 8) % len(G.FORCED)]]
     if 'inf-weight' in forced:
         forced = ['plain']
+    if cls == 'unitcycle' and (index // 4) % 2 == 1:
+        # sparse transition tables with cycles of weight exactly one: reachability needs several iterations
+        return G.gen_zero_cycle_spec(rng), dict(cls=cls, grid=True, forced=['zero-weight-cycle-in-factor'])
     big_scc = (index // 16) % 2 == 1        # SCCs of 3-5 mutually recursive nonterminals with chords
     if index % 11 == 5:
         forced = ['unproductive-nt']
